@@ -13,7 +13,7 @@ P = {
          "Every generated (shape, value) is encoded through all encode entry points and decoded through all decode entry points of the real crate; a monitor compares decoded value (floats bitwise), consumed length and remainder pointer. Whole domains for bool/u8/i8/u16/i16/char (and u32/i32/f32 in the thorough tier), every power-of-two boundary of the wide integers, random shape trees over all 29 serde kinds and ~75 concrete Rust types; text that reaches the encoder through collect_str (write_str and write_char pieces, fmt::Arguments) and never-materialised sequences of 2^32+-k zero-sized elements round-trip as well. Exploration, not proof: values of 64/128-bit types and deep shapes are sampled. A lean workload is also interpreted by Miri for a 32-bit target (i686; stage miri32), where length prefixes are 32-bit varints. (thorough)",
          "Trusts the harness's run-time serde bridge (cross-checked by the Recorder) and the reference encoder used to build corpus values."),
  "C02": ("exploration", "4 C02", "differential monitor against an independent reference encoder written from wire-format.md; Miri big-endian stage (quick), Miri i686 stage (thorough)",
-         "Byte-for-byte comparison of the real encoder's output with a reference encoder written from the specification and validated against every table of the specification at start-up; plus direct canonical-varint assertion, unknown-length refusal, collect_str (write_str and write_char pieces), skip_field, count prefixes of every magnitude, usize/isize and rename-metamorphic monitors. Same domains as C01. A lean workload is also interpreted by Miri for a 32-bit target (i686; stage miri32), where length prefixes are 32-bit varints. (thorough)",
+         "Byte-for-byte comparison of the real encoder's output with a reference encoder written from the specification and validated against every table of the specification at start-up; plus direct canonical-varint assertion, unknown-length refusal, collect_str (write_str and write_char pieces), skip_field, count prefixes of every magnitude, usize/isize and rename-metamorphic monitors. Same domains as C01. A lean workload is also interpreted by Miri for a 32-bit target (i686; stage miri32), where length prefixes are 32-bit varints. (thorough) Sequences of top-level calls on one thread (after a call that failed half way, after a successful one, re-entrantly from inside a Serialize impl) through fifteen encode entry points must each produce the framing of their own value (state kept across calls).",
          "Trusts the reference encoder (validated against 33 table rows of spec/src/wire-format.md on every run)."),
  "C03": ("exploration", "4 C03", "differential monitor against an independent reference decoder; exhaustive short byte strings; Miri i686 stage (quick), big-endian stage (thorough)",
          "Accept/reject, value, consumed length, remainder identity and error kind of the real decoder are compared with a reference decoder written from the specification on every byte string of length <= 3 (quick) / <= 4 (thorough) for the 16-bit varint decoders, all short strings for bool/u8/i8/options, boundary-structured strings for the wider varints, and valid/prefix/corrupted/re-padded/random inputs for random and concrete shapes. A lean workload is also interpreted by Miri for a 32-bit target (i686; stage miri32), where length prefixes are 32-bit varints. (quick and thorough: length prefixes 2^32-1, 2^32, over-long paddings against the reference decoder parametrised by the pointer width)",
@@ -22,37 +22,37 @@ P = {
          "Hostile inputs (mutated-valid, random, adversarial length prefixes up to usize::MAX) are decoded with the input flush against PROT_NONE pages on either side, under catch_unwind, with a thread-local counting allocator enforcing the allocation bound and pointer-range monitors on every borrowed str/bytes; concrete types also through the checksum-verifying slice decoders; operation histories on one flavour object (IOReader over a guarded scratch buffer, Slice over a guarded input, one Deserializer decoding further values after a refused one) are checked against a model of slot positions; hostile inputs of growing depth are decoded into recursive target types in child processes of the worker (a stack overflow cannot be caught in process; recorded as known finding F8); the same workload is interpreted by Miri (quick) and run under ASan and valgrind memcheck (thorough).",
          "Guard pages only see accesses that cross a page edge adjacent to the buffer; Miri covers the rest on a smaller workload. The allocation bound constant is justified in DESIGN 4 C04."),
  "C05": ("fault_enumeration", "4 C05", "capacity fault enumeration with guard pages, canaries, Miri (+ASan, valgrind memcheck and Miri i686 in thorough)",
-         "For every sampled value the buffer-full fault is injected at every byte position (every capacity 0..L+2) for slice storage in plain/COBS/CRC framing and at a menu of const capacities for heapless storage; success iff capacity >= L, exact bytes, untouched tail, buffer-full error, canaries and guard pages intact, serialized_size == L; operation histories on one Slice flavour (writes after a refused write) under guard page and canary; one-shot and self-stamping values (non-idempotent Serialize impls) through every public entry point.",
+         "For every sampled value the buffer-full fault is injected at every byte position (every capacity 0..L+2) for slice storage in plain/COBS/CRC framing and at a menu of const capacities for heapless storage; success iff capacity >= L, exact bytes, untouched tail, buffer-full error, canaries and guard pages intact, serialized_size == L; operation histories on one Slice flavour (writes after a refused write) under guard page and canary; one-shot and self-stamping values (non-idempotent Serialize impls) through every public entry point. Sequences of top-level calls on one thread (after a call that failed half way, after a successful one, re-entrantly from inside a Serialize impl) through fifteen encode entry points must each produce the framing of their own value (state kept across calls).",
          "Heapless capacities are a const-generic menu, not every integer."),
  "C06": ("exploration", "4 C06", "differential monitor against reference COBS; exhaustive short messages",
          "COBS frames produced by the real crate are compared with a reference Cheshire-Baker encoder (validated against published vectors) for all messages up to length 8/10 over {00,01,02,FF}, run lengths around multiples of 254, messages handed to the flavour as blocks (strings / byte arrays of every length, pairs and runs of blocks at every alignment with the 254-byte boundary), random messages, across storage kinds; multi-frame buffers are walked with take_from_bytes_cobs checking remainder pointers.",
          "The parenthetical length formula in the statement is exact only for zero-free messages; the check asserts equality with the reference transform and the formula as an upper bound (DESIGN 4 C06)."),
  "C07": ("exploration", "4 C07", "differential monitor against reference COBS decoder + plain decoder; exhaustive short inputs, guard pages",
-         "Every byte string up to length 7/9 over a code-byte-relevant alphabet, valid frames with every single-byte corruption and truncation, long frames with encoded lengths around every power of two up to 2^17 (quick) / 2^20 (thorough), and random bytes are decoded by the real COBS entry points and compared with reference COBS decode followed by the plain decoder; remainder offsets, buffer contents after the sentinel, panics and guard pages are monitored.",
+         "Every byte string up to length 7/9 over a code-byte-relevant alphabet, valid frames with every single-byte corruption and truncation, long frames with encoded lengths around every power of two up to 2^17 (quick) / 2^20 (thorough), and random bytes are decoded by the real COBS entry points and compared with reference COBS decode followed by the plain decoder; remainder offsets, buffer contents after the sentinel, panics and guard pages are monitored. Payloads made of 1-3 zero-separated runs of lengths around 254.",
          "Trusts the reference COBS decoder (validated against published vectors)."),
  "C08": ("exploration", "4 C08", "online history monitor with state hook; exhaustive chunkings of short streams",
-         "Every feed call is recorded at the API boundary and checked online against a sequential model (pending bytes) using the verif_buffered hook; all 2^(len-1) chunkings of short streams (each also with empty feed calls before, between and after the chunks), all single transitions of longer ones, random chunkings beyond.",
+         "Every feed call is recorded at the API boundary and checked online against a sequential model (pending bytes) using the verif_buffered hook; all 2^(len-1) chunkings of short streams (each also with empty feed calls before, between and after the chunks), all single transitions of longer ones, random chunkings beyond. Frames of 250..700 bytes at capacities 256 and 4096.",
          "Needs the read-only hook to observe buffered bytes."),
  "C09": ("exploration", "4 C09", "online history monitor with state hook over overflow/garbage streams",
-         "Streams with over-long segments and garbage across capacities N in 1..16 incl. N equal to, one less and one more than a frame; monitors: no panic, hook length <= N and empty after every zero, OverFull before the sentinel of an over-long segment, resync, bounded progress of the feed loop in logical steps.",
+         "Streams with over-long segments and garbage across capacities N in 1..16 incl. N equal to, one less and one more than a frame; monitors: no panic, hook length <= N and empty after every zero, OverFull before the sentinel of an over-long segment, resync, bounded progress of the feed loop in logical steps. Frames of 250..700 bytes at capacities 256 / 4096; one instance fed 70 000 (thorough: 1.1 million) over-long segments.",
          "Termination is decided on logical step counts, never wall-clock."),
  "C10": ("fault_enumeration", "4 C10", "corruption fault enumeration against a bit-level reference CRC; Miri big-endian stage in thorough",
-         "Frames for five widths and ten catalogue algorithms are compared with a bit-at-a-time Rocksoft-model CRC (validated against each algorithm's published check value); every single-bit flip, every burst <= width at every offset (exhaustive for widths <= 16, sampled above), truncations and random damage are injected and the soundness invariant is checked on every accepted input; the checksum flavour is also stacked on the std and embedded-io reader flavours with exactly sized scratch buffers, and the crate-level crc32 wrappers are exercised.",
+         "Frames for five widths and ten catalogue algorithms are compared with a bit-at-a-time Rocksoft-model CRC (validated against each algorithm's published check value); every single-bit flip, every burst <= width at every offset (exhaustive for widths <= 16, sampled above), truncations and random damage are injected and the soundness invariant is checked on every accepted input; the checksum flavour is also stacked on the std and embedded-io reader flavours with exactly sized scratch buffers, and the crate-level crc32 wrappers are exercised. Sequences of top-level calls on one thread (after a call that failed half way, after a successful one, re-entrantly from inside a Serialize impl) through fifteen encode entry points must each produce the framing of their own value (state kept across calls).",
          "Trusts the reference CRC (validated against published check values on every run)."),
  "C11": ("fault_enumeration", "4 C11", "I/O fault and schedule enumeration with guard pages, Miri (+ASan, valgrind memcheck, Miri i686, embedded-io 0.4 build in thorough)",
-         "Instrumented readers/writers deliver data in 1-byte/random/whole pieces and fail, hit EOF or interrupt at every byte offset; scratch sizes 0..required+1; monitors: equivalence with slice path, exact consumption, disjoint in-order borrows inside scratch, returned remainder, prefix-only writes, flush; writers that refuse exactly one write (one-shot error at every offset, all-or-nothing bounded sink of every capacity) under ordinary values and text formatted piecewise through collect_str.",
+         "Instrumented readers/writers deliver data in 1-byte/random/whole pieces and fail, hit EOF or interrupt at every byte offset; scratch sizes 0..required+1; monitors: equivalence with slice path, exact consumption, disjoint in-order borrows inside scratch, returned remainder, prefix-only writes, flush; writers that refuse exactly one write (one-shot error at every offset, all-or-nothing bounded sink of every capacity) under ordinary values and text formatted piecewise through collect_str. Sequences of top-level calls on one thread (after a call that failed half way, after a successful one, re-entrantly from inside a Serialize impl) through fifteen encode entry points must each produce the framing of their own value (state kept across calls).",
          "embedded-io 0.4 is exercised only in the thorough tier (features are mutually exclusive, second build)."),
  "C12": ("exploration", "4 C12", "bound monitor over built-in and in-tree-derive MaxSize impls",
-         "serialized size of maximising and random values of every MaxSize impl is compared with POSTCARD_MAX_SIZE; tightness asserted for the categories the statement names; heapless vectors of zero-sized elements at capacities up to usize::MAX; derived types whose fields carry serde attributes.",
+         "serialized size of maximising and random values of every MaxSize impl is compared with POSTCARD_MAX_SIZE; tightness asserted for the categories the statement names; heapless vectors of zero-sized elements at capacities up to usize::MAX; derived types whose fields carry serde attributes. About twenty candidate types without an impl today (Duration, Bound, Wrapping, net addresses, 7/8-tuples, atomics ...) are probed and tested as soon as an impl exists; derived types with repr attributes (repr(u8) enums with 200 variants).",
          "Uses the in-tree postcard-derive (path dependency), not the registry one postcard re-exports."),
  "C13": ("exploration", "4 C13", "differential monitor against to_le_bytes/to_be_bytes; exhaustive 16-bit; Miri big-endian stage",
-         "All 65536 values of u16/i16 in both byte orders, every single-byte-nonzero pattern, extremes and random values of the wider types (all 2^32 of u32/i32 in thorough), standalone and between varint fields.",
+         "All 65536 values of u16/i16 in both byte orders, every single-byte-nonzero pattern, extremes and random values of the wider types (all 2^32 of u32/i32 in thorough), standalone and between varint fields. Sequences of top-level calls on one thread (after a call that failed half way, after a successful one, re-entrantly from inside a Serialize impl) through fifteen encode entry points must each produce the framing of their own value (state kept across calls).",
          "-"),
  "C14": ("exploration", "4 C14", "conformance monitor: recorded serializer call tree vs Schema, plus schema-driven wire walker; two feature configurations (use-std, alloc-only)",
-         "The serde call tree of generated values of every built-in Schema impl and a derived corpus is checked structurally against T::SCHEMA, and an independent schema-directed reader must consume each encoding exactly. Two build configurations: the full one (use-std and all integration features) and an alloc-only build of postcard-schema (stage alloc, crate pcv_alloc), which compiles impls/builtins_alloc.rs instead of builtins_std.rs.",
+         "The serde call tree of generated values of every built-in Schema impl and a derived corpus is checked structurally against T::SCHEMA, and an independent schema-directed reader must consume each encoding exactly. Two build configurations: the full one (use-std and all integration features) and an alloc-only build of postcard-schema (stage alloc, crate pcv_alloc), which compiles impls/builtins_alloc.rs instead of builtins_std.rs. About thirty candidate types without a Schema impl today are probed and checked as soon as an impl exists; derived types with representation attributes and doc comments.",
          "Type names are not compared (statement lists field and variant names)."),
  "C15": ("exploration", "4 C15", "differential monitor borrowed vs owned schema over random trees",
-         "Random schema trees over all 26 node kinds and 4 data kinds are built in both forms from one harness description; conversion equality, byte equality and decode-back equality are monitored.",
+         "Random schema trees over all 26 node kinds and 4 data kinds are built in both forms from one harness description; conversion equality, byte equality and decode-back equality are monitored. Nodes with 20 000..30 000 children and names of 1 KiB..70 KiB.",
          "Borrowed trees are leaked (bounded per run)."),
  "C16": ("exploration", "4 C16", "three-way differential: const hasher (hook) vs owned hasher vs reference FNV-1a stream; Miri big-endian stage in thorough",
          "Keys of random trees x paths from both implementations and an independent tag-stream + FNV-1a implementation are compared; every single-node mutation whose documented stream differs must change the key.",
@@ -61,13 +61,13 @@ P = {
          "For random shapes and corpus types within the statement's restrictions, to_stdvec_dyn must equal the static bytes and from_slice_dyn must equal serde_json::to_value; names that differ only in case or in a raw-identifier prefix, nesting to depth 300. A lean workload is also interpreted by Miri for a 32-bit target (i686; stage miri32), where length prefixes are 32-bit varints. (thorough: pointer-sized integers inside the target range)",
          "serde_json's own Serializer is trusted as the JSON reference."),
  "C18": ("exploration", "4 C18", "totality monitor (catch_unwind, breadcrumbs, counting allocator) over random schemas x bytes x JSON",
-         "No panic/abort, allocation bound, and encode->decode->encode fixpoint are monitored for random schemas with hostile bytes and type-correct/near-miss/unrelated JSON (near-miss includes numbers as decimal strings and respelt object keys). A lean workload is also interpreted by Miri for a 32-bit target (i686; stage miri32), where length prefixes are 32-bit varints. (thorough)",
+         "No panic/abort, allocation bound, and encode->decode->encode fixpoint are monitored for random schemas with hostile bytes and type-correct/near-miss/unrelated JSON (near-miss includes numbers as decimal strings and respelt object keys). A lean workload is also interpreted by Miri for a 32-bit target (i686; stage miri32), where length prefixes are 32-bit varints. (thorough) Nodes with 63..5000 members.",
          "Known design limitations are listed in known_findings.json and still reported as KNOWN-FINDING."),
  "C19": ("exploration", "4 C19", "totality + set-equality monitor for schema inspection helpers",
          "to_pseudocode/Display/all_used_types under catch_unwind for random trees incl. Usize/Isize/Schema; the collected set is compared with an independent traversal; renderings must mention names; wide tuples (7..40 same-kind elements), path-like and case-variant names; is_prim totality.",
          "-"),
  "C20": ("exploration", "4 C20", "compositional differential: flavour stacks vs composed reference transforms",
-         "Outputs of storage x {plain, Cobs, Crc(5 widths), Crc-inside-Cobs} stacks are compared with reference COBS/CRC transforms of the reference encoding, layers are undone in reverse, and recording user flavours must see exactly the plain encoding; exactly fitting heapless storage; one-shot and self-stamping values through every public entry point.",
+         "Outputs of storage x {plain, Cobs, Crc(5 widths), Crc-inside-Cobs} stacks are compared with reference COBS/CRC transforms of the reference encoding, layers are undone in reverse, and recording user flavours must see exactly the plain encoding; exactly fitting heapless storage; one-shot and self-stamping values through every public entry point. Sequences of top-level calls on one thread (after a call that failed half way, after a successful one, re-entrantly from inside a Serialize impl) through fifteen encode entry points must each produce the framing of their own value (state kept across calls).",
          "Trusts reference COBS and CRC."),
 }
 
@@ -114,7 +114,7 @@ def main():
         ],
         "checks": checks,
         "not_applicable": [{"property_id": pid, "reason": REASON_NOT_BUILT} for pid in sorted(P) if pid not in BUILT],
-        "notes": "Technique family: runtime monitoring and sanitizers. Verdicts are three-valued (exit 0 held / 1 violation / 2 inconclusive). VERIF_SEED seeds all random choices; enumerated sub-spaces do not depend on it. VERIF_STAGES=native,plain,miri,miri32,miribe,asan,memcheck,eio04,alloc restricts stages (debugging aid). Confirmed property-breaking changes used to validate the checks are in /verif/seeded/ (140 changes from three waves of independent sub-agents plus 5 hand-written byte-order changes, all detected; DESIGN.md section 15). tools_coverage.sh reports which source lines of /repo the workloads execute (coverage/).",
+        "notes": "Technique family: runtime monitoring and sanitizers. Every check runs its workload on two build profiles (debug assertions + overflow checks on; plain release). Verdicts are three-valued (exit 0 held / 1 violation / 2 inconclusive). VERIF_SEED seeds all random choices; enumerated sub-spaces do not depend on it. VERIF_STAGES=native,plain,miri,miri32,miribe,asan,memcheck,eio04,alloc,cfgfuzz restricts stages (debugging aid). Confirmed property-breaking changes used to validate the checks are in /verif/seeded/ (180 changes from four waves of independent sub-agents plus 5 hand-written byte-order changes, all detected; DESIGN.md section 15). tools_coverage.sh reports which source lines of /repo the workloads execute (coverage/).",
     }
     with open("/verif/MANIFEST.json", "w") as f:
         json.dump(m, f, indent=1)
